@@ -845,7 +845,7 @@ def _symbolic_reals(xs):
     return builtins_all(isinstance(x, _R) for x in xs) and builtins_any(not x.conc for x in xs)
 
 
-builtins_all, builtins_any = _bi.all, _bi.any
+builtins_all, builtins_any, builtins_sum = _bi.all, _bi.any, _bi.sum
 
 
 def _sort_impl(t, dim, descending, k=None):
@@ -853,12 +853,22 @@ def _sort_impl(t, dim, descending, k=None):
         p = _sorted_perm(xs, descending)[:k]
         return [xs[i] for i in p], p
     fl = t._flat()
-    if t.kind == "real" and _symbolic_reals(fl) and KERNELS.get("sort_mode") != "fork":
+    fin = [x for x in fl if isinstance(x, _R)]
+    only_inf = builtins_all(isinstance(x, _R) or (isinstance(x, _Sp) and x.k in ("inf", "-inf")) for x in fl)
+    if t.kind == "real" and only_inf and fin and _symbolic_reals(fin) and KERNELS.get("sort_mode") != "fork":
         def f_net(xs):
-            if KERNELS.get("sort_mode") == "axiom" and len(xs) <= 5:
-                v = _axiom_sort(xs, descending)[:k]
+            # +-inf entries (a masked diagonal ...) have a known place; only the finite symbolic entries need the network / the axiomatised permutation
+            fx = [x for x in xs if isinstance(x, _R)]
+            npos = builtins_sum(1 for x in xs if isinstance(x, _Sp) and x.k == "inf")
+            nneg = builtins_sum(1 for x in xs if isinstance(x, _Sp) and x.k == "-inf")
+            if not fx:
+                vf = []
+            elif KERNELS.get("sort_mode") == "axiom" and len(fx) <= 5:
+                vf = _axiom_sort(fx, descending)
             else:
-                v = _network_sort(xs, descending)[:k]
+                vf = _network_sort(fx, descending)
+            v = ([_INF] * npos + vf + [_NINF] * nneg) if descending else ([_NINF] * nneg + vf + [_INF] * npos)
+            v = v[:k]
             return v, [0] * len(v)
         V, _ = _along(t, dim, f_net, out_len=k)
         I = _LazyIdx(lambda: _along(t, dim, f_fork, out_len=k)[1], V.shape)
